@@ -1,16 +1,10 @@
 (* Crash/ProofsResume.v — the resume clause of C13: the statement, its refutation for the code before the F6 repair
    (restart without re-committing the interrupted store-point head), and the checked instance with the repair. *)
 From Coq Require Import List NArith Bool Lia.
-From Verif Require Import Crash.Model Crash.ProofsStore Crash.ProofsInv Crash.ProofsImport Crash.ProofsCrash Crash.Examples.
+From Verif Require Import Crash.Model Crash.ProofsStore Crash.ProofsInv Crash.ProofsImport Crash.ProofsCrash Crash.Examples
+  Crash.ProofsEqv Crash.ProofsShape Crash.ProofsResumeAll.
 Import ListNotations.
 Open Scope N_scope.
-
-(* number of writes the uninterrupted run issues for the first i blocks *)
-Definition offset (c : cfg) (s : store) (l : list blk) (i : nat) : nat := length (writes_of c s (firstn i l)).
-
-(* cut k interrupts the import with index i (or lies at the boundary before it) *)
-Definition cut_in_import (c : cfg) (s : store) (l : list blk) (k i : nat) : Prop :=
-  (offset c s l i <= k)%nat /\ ((k < offset c s l (S i))%nat \/ i = length l).
 
 (* "resuming the same block stream leads to the same best block and vote tallies as if no crash had happened" *)
 Definition resume_converges_statement (rep : bool) : Prop :=
@@ -78,3 +72,14 @@ Lemma resume_diverges_exactly_at_f6_cuts :
          | None => false
          end) (seq 0 (S (length (writes_of ex_cfg ex_s0 ex_hist)))) = [3; 10; 18; 26]%nat.
 Proof. vm_compute. reflexivity. Qed.
+
+(* the example meets the hypotheses of the general resume theorem *)
+Lemma ex_wf_cfg2 : wf_cfg2 ex_cfg.
+Proof. split; [exact ex_wf_cfg|reflexivity]. Qed.
+Lemma ex_inv2 : Inv2 ex_cfg ex_s0.
+Proof. apply (genesis_inv2 2 ex_gen); reflexivity. Qed.
+
+Lemma ex_finalized_moves :
+  finalized ex_cfg ex_s0 = bid 0 7 /\ finalized ex_cfg (run ex_cfg ex_s0 (firstn 5 ex_hist)) = bid 2 2 /\
+  finalized ex_cfg (run ex_cfg ex_s0 ex_hist) = bid 4 4.
+Proof. vm_compute. auto. Qed.
